@@ -505,7 +505,9 @@ def check_query(case):
     exp_ids = [id(m.real) for m in exp_a]
     if got_ids != exp_ids:
         def show(real_nodes):
-            return [ascii("%s%r" % (n._name, tuple(n.attrs))) for n in real_nodes]
+            # (a result may hold things that are no nodes at all - the message must still be written)
+            return [ascii("%s%r" % (n._name, tuple(n.attrs))) if hasattr(n, "_name") and hasattr(n, "attrs")
+                    else "<not a node: %s>" % ascii(n) for n in real_nodes]
         kind = "wrong order" if sorted(got_ids) == sorted(exp_ids) else "wrong node set"
         raise Violation("%s: query %s (via %s, deep=%s, roots=%s) returned %r, the matching nodes are %r"
                         % (kind, ascii(levels), via, deep, roots, show(got.children), show([m.real for m in exp_a])),
